@@ -19,6 +19,7 @@ import (
 	"sync"
 
 	"github.com/remieven/ysgo"
+	"github.com/remieven/ysgo/markup"
 	"github.com/remieven/ysgo/variable"
 )
 
@@ -30,6 +31,9 @@ type ReaderSpec struct {
 	Chunks []int  `json:"chunks,omitempty"`
 	EOF    int    `json:"eof,omitempty"`    // 0: (n,nil) then (0,EOF); 1: last chunk comes with EOF
 	ErrAt  int    `json:"err_at,omitempty"` // >0: fail with an error once ErrAt-1 bytes were delivered
+	// Before: the reader can seek (a file, a strings.Reader, a section of an archive) and was handed over positioned
+	// AFTER these bytes, which the host had consumed or skipped itself: they are not part of the script
+	Before string `json:"before,omitempty"`
 }
 
 func (rs *ReaderSpec) bytes() []byte {
@@ -71,6 +75,49 @@ type faultReader struct {
 
 func newFaultReader(spec *ReaderSpec) *faultReader {
 	return &faultReader{data: spec.bytes(), spec: spec}
+}
+
+// seekingReader is a faultReader over content that has something before the position it is handed over at;
+// it can seek like an *os.File. Reading on from the current position yields the script and nothing else.
+type seekingReader struct {
+	*faultReader
+	before int
+}
+
+func (r *seekingReader) Seek(offset int64, whence int) (int64, error) {
+	var abs int64
+	switch whence {
+	case io.SeekStart:
+		abs = offset
+	case io.SeekCurrent:
+		abs = int64(r.pos) + offset
+	case io.SeekEnd:
+		abs = int64(len(r.data)) + offset
+	default:
+		return 0, errors.New("seek: invalid whence")
+	}
+	if abs < 0 {
+		return 0, errors.New("seek: negative position")
+	}
+	r.pos = int(abs)
+	if gStats != nil && int(abs) < r.before {
+		gStats.inc("seek_before_the_position_handed_over", 1)
+	}
+	return abs, nil
+}
+
+// readerFor builds the io.Reader of a spec: one that can seek when the spec says something lies before it.
+func readerFor(spec *ReaderSpec) (io.Reader, *faultReader) {
+	fr := newFaultReader(spec)
+	if spec.Before == "" {
+		return fr, fr
+	}
+	fr.data = append([]byte(spec.Before), fr.data...)
+	fr.pos = len(spec.Before)
+	if gStats != nil {
+		gStats.fault("seekable_reader_handed_over_at_an_offset")
+	}
+	return &seekingReader{faultReader: fr, before: len(spec.Before)}, fr
 }
 
 func (r *faultReader) Read(p []byte) (int, error) {
@@ -118,6 +165,11 @@ func (r *faultReader) Read(p []byte) (int, error) {
 // recStorer is a variable.Storer owned by the simulator: one map, one value per
 // name, every call logged.
 type recStorer struct {
+	// cells: when non-nil the storer keeps ONE variable.Value per name and updates it in place on a write of
+	// the same type; GetValue hands out that very cell and GetValues struct copies that share its pointers - a legal
+	// Storer (a host that binds variables to UI fields does this). Whoever keeps what it got from such a storer
+	// without copying it deeply sees it change.
+	cells  map[string]*variable.Value
 	vals   map[string]Val
 	h      *Host
 	reads  int
@@ -167,15 +219,40 @@ func (s *recStorer) GetValue(name string) (*variable.Value, bool) {
 	if !ok {
 		return nil, false
 	}
+	if s.cells != nil {
+		return s.cells[name], true
+	}
 	return toYarn(v), true
 }
 
 func (s *recStorer) GetValues() map[string]variable.Value {
 	out := make(map[string]variable.Value, len(s.vals))
 	for k, v := range s.vals {
+		if s.cells != nil {
+			out[k] = *s.cells[k]
+			continue
+		}
 		out[k] = *toYarn(v)
 	}
 	return out
+}
+
+// setCell keeps the in-place cell of a name in step with vals.
+func (s *recStorer) setCell(name string, v Val) {
+	if s.cells == nil {
+		return
+	}
+	c := s.cells[name]
+	switch {
+	case c != nil && v.K == 'n' && c.Number != nil:
+		*c.Number = v.N
+	case c != nil && v.K == 'b' && c.Boolean != nil:
+		*c.Boolean = v.B
+	case c != nil && v.K == 's' && c.String != nil:
+		*c.String = v.S
+	default:
+		s.cells[name] = toYarn(v)
+	}
 }
 
 func (s *recStorer) Contains(name string) bool { _, ok := s.vals[name]; return ok }
@@ -183,24 +260,30 @@ func (s *recStorer) Contains(name string) bool { _, ok := s.vals[name]; return o
 func (s *recStorer) SetNumberValue(name string, v float64) {
 	s.writes++
 	s.vals[name] = numV(v)
+	s.setCell(name, numV(v))
 	s.h.event("store " + name + "=" + numV(v).canon())
 }
 
 func (s *recStorer) SetBooleanValue(name string, v bool) {
 	s.writes++
 	s.vals[name] = boolV(v)
+	s.setCell(name, boolV(v))
 	s.h.event("store " + name + "=" + boolV(v).canon())
 }
 
 func (s *recStorer) SetStringValue(name string, v string) {
 	s.writes++
 	s.vals[name] = strV(v)
+	s.setCell(name, strV(v))
 	s.h.event("store " + name + "=" + strV(v).canon())
 }
 
 func (s *recStorer) Clear() {
 	s.writes++
 	s.vals = map[string]Val{}
+	if s.cells != nil {
+		s.cells = map[string]*variable.Value{}
+	}
 	s.h.event("store clear")
 }
 
@@ -220,8 +303,11 @@ type HostSpec struct {
 	FailedRegs bool `json:"failed_regs,omitempty"`
 	// Reentrant: a handler that the runner calls synchronously (raw commands, converted handlers returning a
 	// channel) registers one more command and one more function on its runner while it runs
-	Reentrant bool   `json:"reentrant,omitempty"`
-	Seed      string `json:"seed"`
+	Reentrant bool `json:"reentrant,omitempty"`
+	// Scribble: once it has taken note of an element, the host writes all over it (text, tags, attribute fields,
+	// property maps): the element was handed over, it is the host's. Nothing of that may reach another element.
+	Scribble bool   `json:"scribble,omitempty"`
+	Seed     string `json:"seed"`
 }
 
 type World struct {
@@ -308,6 +394,13 @@ func newHost(w *World) (h *Host, panicVal any) {
 	case "rec":
 		h.rec = newRecStorer(h)
 		h.st = h.rec
+	case "cells":
+		h.rec = newRecStorer(h)
+		h.rec.cells = map[string]*variable.Value{}
+		h.st = h.rec
+		if gStats != nil {
+			gStats.fault("storer_that_updates_its_cells_in_place")
+		}
 	}
 	if h.st != nil {
 		names := make([]string, 0, len(w.Host.Prefill))
@@ -322,9 +415,9 @@ func newHost(w *World) (h *Host, panicVal any) {
 	}
 	readers := make([]io.Reader, len(w.Readers))
 	for i := range w.Readers {
-		fr := newFaultReader(&w.Readers[i])
+		rd, fr := readerFor(&w.Readers[i])
 		h.readers = append(h.readers, fr)
-		readers[i] = fr
+		readers[i] = rd
 	}
 	func() {
 		defer func() {
@@ -406,6 +499,15 @@ type valueErr struct{ msg string }
 func (e valueErr) Error() string { return e.msg }
 
 func hostError(k int) error {
+	if k < 0 {
+		k = -k
+	}
+	switch k % 5 {
+	case 3:
+		return io.EOF // a host whose function reads a file: the commonest sentinel there is
+	case 4:
+		return fmt.Errorf("save slot: %w", io.ErrUnexpectedEOF)
+	}
 	switch k % 3 {
 	case 1:
 		return strErr("injected failure (string-typed error)")
@@ -445,6 +547,47 @@ func (h *Host) register() {
 				h.st.SetNumberValue(name, x)
 			}
 		}))
+		// pclr(): a host function that empties the host's storer while a statement is being evaluated, then answers 1
+		must(h.dr.ConvertAndAddFunction("pclr", func() float64 {
+			h.call("fn", "pclr")
+			if gStats != nil {
+				gStats.fault("host_function_clears_the_storer_mid_statement")
+			}
+			if h.st != nil {
+				h.st.Clear()
+			}
+			return 1
+		}))
+		// pty(name): a host function that gives the variable another type through the storer while a statement is
+		// being evaluated, and answers a value of the type the variable had before (so that an assignment of the
+		// answer to that variable agrees with the old type and disagrees with what the storer holds now)
+		h.dr.AddFunction("pty", func(args []*variable.Value) (*variable.Value, error) {
+			if len(args) != 1 || args[0] == nil || args[0].String == nil {
+				return nil, errors.New("pty expects one string")
+			}
+			name := *args[0].String
+			h.call("fn", "pty", name)
+			if gStats != nil {
+				gStats.fault("host_function_retypes_a_variable_mid_statement")
+			}
+			if h.st == nil {
+				return variable.NewNumber(7), nil
+			}
+			cur, ok := h.st.GetValue(name)
+			switch {
+			case ok && cur != nil && cur.String != nil:
+				h.st.SetNumberValue(name, 7)
+				return variable.NewString("Bob"), nil
+			case ok && cur != nil && cur.Number != nil:
+				h.st.SetStringValue(name, "x")
+				return variable.NewNumber(5), nil
+			case ok && cur != nil && cur.Boolean != nil:
+				h.st.SetNumberValue(name, 7)
+				return variable.NewBoolean(true), nil
+			}
+			h.st.SetNumberValue(name, 7)
+			return variable.NewNumber(7), nil
+		})
 		must(h.dr.ConvertAndAddFunction("pboom", func(k float64) {
 			h.call("fn", "pboom", k)
 			h.hostPanicked = true
@@ -952,6 +1095,21 @@ func (h *Host) NextEl(arg int) (r Resp, el *ysgo.DialogueElement) {
 	}()
 	var err error
 	el, err = h.dr.Next(arg)
+	if el != nil && h.spec.Scribble {
+		// the host takes note of the element (a copy of its own), then writes all over what it was given
+		b, _ := json.Marshal(el)
+		h.kept = append(h.kept, keptEl{nil, string(b)})
+		if len(h.kept) > 4 {
+			h.kept = h.kept[len(h.kept)-4:]
+		}
+		r = toResp(el, err)
+		r.Tags = append([]string(nil), r.Tags...)
+		for i := range r.Opts {
+			r.Opts[i].Tags = append([]string(nil), r.Opts[i].Tags...)
+		}
+		scribble(el)
+		return r, nil
+	}
 	if el != nil {
 		// what was handed to the host stays what it was (checked by whoever asks keptChanged later)
 		b, _ := json.Marshal(el)
@@ -966,6 +1124,40 @@ func (h *Host) NextEl(arg int) (r Resp, el *ysgo.DialogueElement) {
 // hostPanicValue is what the host function pboom panics with: a value of the host's own.
 type hostPanicValue struct{ what string }
 
+// scribble overwrites everything a host can reach in an element it was given.
+func scribble(el *ysgo.DialogueElement) {
+	line := func(l *ysgo.Line) {
+		if l == nil {
+			return
+		}
+		l.Text = "scribbled"
+		for i := range l.Tags {
+			l.Tags[i] = "scribbled"
+		}
+		l.Tags = append(l.Tags, "scribbled")
+		for i := range l.Attributes {
+			a := &l.Attributes[i]
+			for k := range a.Properties {
+				a.Properties[k] = markup.Value{StringValue: "scribbled", ValueType: markup.ValueTypeString}
+			}
+			if a.Properties != nil {
+				a.Properties["scribbled"] = markup.Value{IntegerValue: 99, ValueType: markup.ValueTypeInteger}
+			}
+			a.Name, a.Position, a.Length, a.SourcePosition = "scribbled", 99, 99, 99
+		}
+		l.Attributes = append(l.Attributes, markup.Attribute{Name: "scribbled"})
+	}
+	el.Node = "scribbled"
+	line(el.Line)
+	for i := range el.Options {
+		line(el.Options[i].Line)
+		el.Options[i].Disabled = !el.Options[i].Disabled
+	}
+	if gStats != nil {
+		gStats.fault("host_scribbles_on_the_elements_it_was_given")
+	}
+}
+
 type keptEl struct {
 	el    *ysgo.DialogueElement
 	canon string
@@ -975,6 +1167,9 @@ type keptEl struct {
 // longer what it was when it was returned.
 func (h *Host) keptChanged() string {
 	for _, k := range h.kept {
+		if k.el == nil {
+			continue // the host scribbled on this one itself
+		}
 		if b, _ := json.Marshal(k.el); string(b) != k.canon {
 			return fmt.Sprintf("returned %s, now %s", k.canon, b)
 		}
